@@ -75,7 +75,7 @@ func cmdVC(args []string) {
 	fmt.Printf("loaded in %.1fs; %d contracts\n", time.Since(t0).Seconds(), len(p.cons.funcs))
 	var keys []string
 	for k, fc := range p.cons.funcs {
-		if fc.trusted || strings.Contains(k, ".iface:") || strings.Contains(k, ".functype:") {
+		if fc.trusted || fc.inline || strings.Contains(k, ".iface:") || strings.Contains(k, ".functype:") {
 			continue
 		}
 		if len(funcs) > 0 {
@@ -140,6 +140,11 @@ func cmdVC(args []string) {
 				}
 			}
 		}
+		for _, o := range r.reach {
+			if o.status == "unreachable" && !strings.HasPrefix(o.desc, "panic-block") {
+				fmt.Printf("    dead block under contract: %s at %s\n", o.name, o.pos)
+			}
+		}
 		if *verbose {
 			for _, n := range r.notes {
 				fmt.Printf("    note: %s\n", n)
@@ -149,6 +154,5 @@ func cmdVC(args []string) {
 	fmt.Printf("total: %d discharged, %d not; solver time %.1fs; by solver %v; wall %.1fs\n", nOK, nFail, stats.secs, stats.bySolver, time.Since(t0).Seconds())
 }
 
-func cmdCheck(args []string)    { fmt.Println("not implemented yet"); os.Exit(2) }
 func cmdFrame(args []string)    { fmt.Println("not implemented yet"); os.Exit(2) }
 func cmdSelftest(args []string) { fmt.Println("not implemented yet"); os.Exit(2) }
